@@ -222,3 +222,26 @@ pub fn c22_q_idle_expiry_exact() {
     core::mem::forget(s);
 }
 }
+
+std_stubs! {
+/// Obligation 2'' (a keep-alive proves the client alive): whenever a step returns a keep-alive — a publish request was
+/// consumed, Part 4 5.13.1.1: "the processing of a Publish response resets the lifetime counter" — the lifetime counter
+/// has been reset (to the maximum, or one below when the publishing timer restarted in the same step). This is what keeps
+/// a subscription alive whose client publishes intermittently (states #7, #11, #15).
+#[kani::unwind(2)]
+pub fn c22_q_keepalive_resets_lifetime() {
+    let st = any_live_state();
+    kani::assume(st.lifetime >= 2);
+    let mut s = make(&st);
+    let rpr: bool = kani::any();
+    let (rq, te): (bool, bool) = (kani::any(), kani::any());
+    kani::assume(!(rpr && te));
+    let (_h, action) = s.verif_update_state(rpr, false, false, rq, te);
+    if action == A_KEEPALIVE {
+        assert!(s.lifetime_counter() as u64 + 1 >= st.max_lifetime as u64, "a keep-alive response resets the lifetime counter");
+    }
+    kani::cover!(action == A_KEEPALIVE && rpr, "keep-alive on a received publish request");
+    kani::cover!(action == A_KEEPALIVE && te, "keep-alive on a timer expiry");
+    core::mem::forget(s);
+}
+}
